@@ -3,7 +3,7 @@
 import json, os, shutil, sys
 pid, letter, slug, caught = sys.argv[1:5]
 note = sys.argv[5] if len(sys.argv) > 5 else ""
-src = "/tmp/seed/%s/out" % pid
+src = os.environ.get("SEED_BASE", "/tmp/seed") + "/%s/out" % pid
 dst = "/verif/seeded/%s-%s" % (pid, slug)
 os.makedirs(dst, exist_ok=True)
 shutil.copy(os.path.join(src, letter + ".patch"), os.path.join(dst, "patch.diff"))
